@@ -1,0 +1,5 @@
+//go:build !verif
+
+package memory
+
+func verifMinStack(n int) int { return n }
